@@ -154,6 +154,25 @@ def run_cmd(cmd, timeout=900):
     return p.returncode, out.decode(errors="replace")
 
 
+def run_digest(cmd, fname):
+    """run a compile whose output can be tens of MB; keep only what is needed: (rc, digest) where the digest holds the
+    error lines' head, the set of `fname` line numbers mentioned by diagnostics and the flags that matter"""
+    rc, out = run_cmd(cmd)
+    errs = [l[:400] for l in out.splitlines() if "error" in l or "Error" in l][:12]
+    return rc, {"hit": diag_lines(out, fname), "errors": errs or [out[-600:]], "fatal": "fatal error" in out, "tail": out[-1500:]}
+
+
+def run_single(cmd):
+    """individual expected-failure compile: (rc, proper rejection?, first error line, tail)"""
+    rc, out = run_cmd(cmd)
+    first = ""
+    for l in out.splitlines():
+        if "error" in l:
+            first = l[:300]
+            break
+    return rc, (proper_rejection(rc, out), first, out[-800:])
+
+
 def diag_lines(out, fname):
     return set(int(m) for m in re.findall(re.escape(fname) + r":(\d+):", out))
 
@@ -182,15 +201,24 @@ class C11:
         self.harness_notes = []
         self.forced_kinds = {}
         self.sample_families = set()
+        self.pending = {}
 
     # ---------------------------------------------------------- violations
     def violate(self, sig, sch, case, text):
+        """remember the smallest failing (schema, probe, config) per signature; reported by flush_violations()"""
         self.sigs[sig] = self.sigs.get(sig, 0) + 1
-        if self.sigs[sig] > 1:
-            return
-        full = {"schema_xml": sch.entry.xml, "prelude": sch.gen.prelude()}
-        full.update(case)
-        self.res.violation(sig, full, text)
+        key = (sch.index, case.get("probe", {}).get("k", -1), case.get("config", ""), tuple(case.get("variant", ())))
+        cur = self.pending.get(sig)
+        if cur is None or key < cur[0]:
+            self.pending[sig] = (key, sch, case, text)
+
+    def flush_violations(self):
+        for sig in sorted(self.pending):
+            key, sch, case, text = self.pending[sig]
+            full = {"schema_xml": sch.entry.xml, "prelude": sch.gen.prelude()}
+            full.update(case)
+            self.res.violation(sig, full, text)
+        self.pending = {}
 
     def probe_case(self, sch, unit, p, variant, expect, expr=None):
         return {"schema": sch.id, "config": unit.cfgname, "byte": unit.byte, "probe": p.describe(), "variant": list(variant), "expect": expect,
@@ -217,13 +245,13 @@ class C11:
             futs = {}
             for sch in schemas:
                 for ui, u in enumerate(sch.units):
-                    futs[ex.submit(run_cmd, u.cmd(os.path.join(sch.wdir, "control.cpp")))] = ("control", sch, u, None)
+                    futs[ex.submit(run_digest, u.cmd(os.path.join(sch.wdir, "control.cpp")), "control.cpp")] = ("control", sch, u, None)
                     exe = os.path.join(sch.wdir, "sfinae-" + u.cfgname)
                     futs[ex.submit(self._build_and_run, u.cmd(os.path.join(sch.wdir, "sfinae.cpp"), exe=exe), exe)] = ("sfinae", sch, u, None)
                     for vc in REJECT_ORDER:
                         if sch.reject_lines[vc]:
                             lim = ["-ferror-limit=0"] if is_clang(u.cfg) else ["-fmax-errors=0"]
-                            futs[ex.submit(run_cmd, u.cmd(os.path.join(sch.wdir, "reject%d%d.cpp" % vc), extra=lim))] = ("reject", sch, u, vc)
+                            futs[ex.submit(run_digest, u.cmd(os.path.join(sch.wdir, "reject%d%d.cpp" % vc), extra=lim), "reject%d%d.cpp" % vc)] = ("reject", sch, u, vc)
                 if sch.entry.model.messages:
                     nro = 1 if self.t == "quick" else 2
                     sch.ro = []
@@ -263,7 +291,7 @@ class C11:
         u.control_ok = rc == 0
         if rc == 0:
             return
-        hit = diag_lines(out, "control.cpp")
+        hit = out["hit"]
         for ln in sorted(hit):
             tag = sch.control_lines.get(ln)
             if not tag:
@@ -274,16 +302,16 @@ class C11:
                 u.bad_accept.add(k)
                 self.violate("mutable-view-mutator-rejected:%s" % p.kind, sch, self.probe_case(sch, u, p, (0, 0), "accept"),
                              "[%s %s BYTE=%s] positive control: probe `%s` (%s) does not compile for mutable byte types: %s" % (
-                                 sch.id, u.cfgname, u.byte, p.kind, p.site, "; ".join(poolmod.first_errors(out, 2))))
+                                 sch.id, u.cfgname, u.byte, p.kind, p.site, "; ".join(out["errors"][:2])))
             elif what == "prefix" and k not in u.bad_prefix:
                 u.bad_prefix.add(k)
                 vc0 = p.reject[0]
                 self.violate("const-path-rejected:%s" % p.kind, sch,
                              self.probe_case(sch, u, p, vc0, "accept", expr=(p.prefix10 if vc0 == (1, 0) else p.prefix)),
                              "[%s %s BYTE=%s] path control: the access path of probe `%s` (%s) does not compile under a const variant: %s" % (
-                                 sch.id, u.cfgname, u.byte, p.kind, p.site, "; ".join(poolmod.first_errors(out, 2))))
+                                 sch.id, u.cfgname, u.byte, p.kind, p.site, "; ".join(out["errors"][:2])))
         if not u.bad_accept and not u.bad_prefix:
-            raise RuntimeError("C11 harness: control TU failed without an attributable probe line (%s %s):\n%s" % (sch.id, u.cfgname, out[-2000:]))
+            raise RuntimeError("C11 harness: control TU failed without an attributable probe line (%s %s):\n%s" % (sch.id, u.cfgname, out["tail"]))
 
     def on_sfinae(self, sch, u, rc, out):
         if rc != 0:
@@ -322,21 +350,25 @@ class C11:
                             self.body_rejected_seen[key] = self.body_rejected_seen.get(key, 0) + 1
                         else:
                             self.violate(violation_signature(p.kind, "sfinae"), sch, dict(self.probe_case(sch, u, p, vc, "reject"), layer="detection-idiom"),
-                                         "[%s %s BYTE=%s] detection idiom reports `%s` (%s) as well-formed under %s: the constness guard of the "
-                                         "declaration is missing or wrong (doc: setters are 'not available' for const byte types / more-const cursors)" % (
-                                             sch.id, u.cfgname, u.byte, p.kind, p.site, VARIANT_NAMES[vc]))
+                                         "[%s %s BYTE=%s] detection idiom reports `%s` (%s) as well-formed under %s: %s" % (
+                                             sch.id, u.cfgname, u.byte, p.kind, p.site, VARIANT_NAMES[vc],
+                                             "a conversion towards a less-const byte type is offered (doc: available only if Byte2* converts to Byte*)"
+                                             if p.kind.startswith(("conversion.", "cursor-getter.")) else
+                                             "the constness guard of the declaration is missing or wrong (doc: setters are 'not available' for const "
+                                             "byte types / more-const cursors)"))
         self.res.count(sum(1 + len(p.reject) for p in sch.probes))
 
     def on_reject_batch(self, sch, u, vc, rc, out):
         lines = sch.reject_lines[vc]
         self.counts["l2_batched_reject_functions"] += len(lines)
         self.res.count(len(lines))
-        if rc == 0 or "fatal error" in out:
+        if rc == 0 or out["fatal"]:
             if rc != 0:
-                raise RuntimeError("C11 harness: batched reject TU fatal error (%s %s): %s" % (sch.id, u.cfgname, out[-800:]))
+                raise RuntimeError("C11 harness: batched reject TU fatal error (%s %s): %s" % (sch.id, u.cfgname, out["tail"]))
             u.batch_missing[vc] = set(lines.values())
+            u.batch_diagnosed[vc] = set()
             return
-        hit = diag_lines(out, "reject%d%d.cpp" % vc)
+        hit = out["hit"]
         u.batch_missing[vc] = set(k for ln, k in lines.items() if ln not in hit)
         u.batch_diagnosed[vc] = set(lines.values()) - u.batch_missing[vc]
 
@@ -395,7 +427,7 @@ class C11:
                     with open(fn, "w") as f:
                         f.write(src)
                     lim = ["-ferror-limit=0"] if is_clang(u.cfg) else ["-fmax-errors=0"]
-                    futs[ex.submit(run_cmd, u.cmd(fn, extra=lim))] = (sch, u, vc, lines, os.path.basename(fn))
+                    futs[ex.submit(run_digest, u.cmd(fn, extra=lim), os.path.basename(fn))] = (sch, u, vc, lines, os.path.basename(fn))
                 for f in cf.as_completed(futs):
                     sch, u, vc, lines, base = futs[f]
                     rc, out = f.result()
@@ -403,9 +435,9 @@ class C11:
                     self.res.count(len(lines))
                     if rc == 0:
                         continue
-                    if "fatal error" in out:
-                        raise RuntimeError("C11 harness: batched reject TU fatal error (%s %s): %s" % (sch.id, u.cfgname, out[-800:]))
-                    hit = diag_lines(out, base)
+                    if out["fatal"]:
+                        raise RuntimeError("C11 harness: batched reject TU fatal error (%s %s): %s" % (sch.id, u.cfgname, out["tail"]))
+                    hit = out["hit"]
                     left = set(k for ln, k in lines.items() if ln not in hit)
                     if len(left) < len(u.batch_missing[vc]):
                         progress = True
@@ -480,6 +512,10 @@ class C11:
             for vc in p.reject:
                 jobs.append((si, k, vc, u, False))
                 done.add((si, k, vc, u.cfgname))
+            # the same -DPROBE=k compile with mutable byte types must succeed (individual positive control; the control TU
+            # holds the same function for every probe): all sampled probes in quick, one in eight in thorough
+            if self.t == "quick" or (si + k) % 8 == 0:
+                jobs.append((si, k, (0, 0), u, False))
         # probes whose line carried no diagnostic in a batched reject TU
         unexpected = {}
         for si, sch in enumerate(schemas):
@@ -510,13 +546,23 @@ class C11:
                 si, k, vc, u, forced = job
                 sch = schemas[si]
                 cmd = u.cmd(os.path.join(sch.wdir, "probes.cpp"), extra=["-DPROBE=%d" % k, "-DVCONST=%d" % vc[0], "-DCCONST=%d" % vc[1]])
-                futs[ex.submit(run_cmd, cmd)] = job
+                futs[ex.submit(run_single, cmd)] = job
             for f in cf.as_completed(futs):
                 results.append((futs[f], f.result()))
+            futs = None
         results.sort(key=lambda r: (r[0][0], r[0][1], r[0][2], r[0][3].cfgname))
         for (si, k, vc, u, forced), (rc, out) in results:
             sch = schemas[si]
             p = sch.probes[k]
+            if vc == (0, 0):
+                self.counts["l3_individual_accept_compiles"] = self.counts.get("l3_individual_accept_compiles", 0) + 1
+                res.count()
+                if rc != 0 and k not in u.bad_accept:
+                    u.bad_accept.add(k)
+                    self.violate("mutable-view-mutator-rejected:%s" % p.kind, sch, self.probe_case(sch, u, p, (0, 0), "accept"),
+                                 "[%s %s BYTE=%s] positive control: `-DPROBE=%d` of `%s` (%s) does not compile for mutable byte types: %s" % (
+                                     sch.id, u.cfgname, u.byte, k, p.kind, p.site, out[1]))
+                continue
             self.counts["l3_expected_failure_compiles"] += 1
             if forced:
                 self.counts["l3_forced_by_l2"] += 1
@@ -537,16 +583,15 @@ class C11:
                 self.violate(violation_signature(p.kind, "accepted"), sch, self.probe_case(sch, u, p, vc, "reject"),
                              "[%s %s BYTE=%s] `%s` (%s) compiles under %s: %s" % (sch.id, u.cfgname, u.byte, p.kind, p.site, VARIANT_NAMES[vc], p.expr[:300]))
                 continue
-            if not proper_rejection(rc, out):
-                raise RuntimeError("C11 harness: expected-failure compile ended abnormally (rc=%d) for %s probe %d: %s" % (rc, sch.id, k, out[-800:]))
+            if not out[0]:
+                raise RuntimeError("C11 harness: expected-failure compile ended abnormally (rc=%d) for %s probe %d: %s" % (rc, sch.id, k, out[2]))
             res.nontriv("%s:%d" % (sch.id, k))
             self.kind_l3[p.kind] = self.kind_l3.get(p.kind, 0) + 1
             fam = probegen.kind_class(p.kind)
             if len(res.samples) < 9 and fam not in self.sample_families and len(p.expr) < 500:
                 self.sample_families.add(fam)
-                err = [l for l in out.splitlines() if "error" in l]
                 res.sample({"schema": sch.id, "config": u.cfgname, "byte": u.byte, "kind": p.kind, "site": p.site, "variant": VARIANT_NAMES[vc],
-                            "source": sch.gen.single_probe_tu(p, vc[0], vc[1], u.byte)[:1200], "first_error": (err[0] if err else "")[:300]})
+                            "source": sch.gen.single_probe_tu(p, vc[0], vc[1], u.byte)[:1200], "first_error": out[1]})
 
     # ------------------------------------------------------------- stage C
     def stage_c(self, schemas, n_cases):
@@ -661,6 +706,7 @@ class C11:
             pairs = self.l3_jobs_thorough(schemas, int(3000 * self.budget))
             res.exhaustive = True
         self.stage_b(schemas, pairs)
+        self.flush_violations()
         res.extra["stage_b_wall_s"] = round(time.time() - t0, 1)
         t0 = time.time()
         if self.pc.entries:
